@@ -258,6 +258,16 @@ def age_field(f):
             f.valid = val
     if not (_same(f.array, arr) and _same(f.valid, val)):
         raise RuntimeError("aging changed the field's data")
+    # the same component-to-axis mapping, re-assigned with its keys in another order (a dict's insertion order is
+    # not part of the mapping; code that pairs components with axes by position in the dict is wrong)
+    vm = dict(f.vdim_mapping)
+    if len(vm) > 1 and (_state["count"] >> 1) & 1:
+        items = list(vm.items())
+        items = items[1:] + items[:1] if _state["count"] & 4 else items[::-1]
+        f.vdim_mapping = dict(items)
+        if dict(f.vdim_mapping) != vm:
+            f.vdim_mapping = vm
+            raise RuntimeError("aging changed the mapping")
     STATS["aged_fields"] += 1
     if not made:
         STATS["skipped_inexact"] += 1
